@@ -78,6 +78,25 @@ class Adapter:
         """mask aligned with all_actions (single-agent): default = observation.action_mask flattened"""
         return np.asarray(obs.action_mask).reshape(-1)
 
+    def choose_action(self, env: Any, s: Any, ts: Any, policy: str, rng: np.random.Generator, t: int) -> np.ndarray:
+        """the action a policy plays (override for multi-agent / huge action spaces)"""
+        acts = self._acts(env)
+        mask = self.flat_mask(env, s, ts.observation) if self.has_mask else None
+        return acts[choose(policy, rng, mask, len(acts), t)]
+
+    def fan_actions(self, env: Any, s: Any, ts: Any, rng: np.random.Generator, cap: int = 4096) -> np.ndarray:
+        """the actions tried from one state in a fan-out: the whole action space when small, else a sample"""
+        acts = self._acts(env)
+        if len(acts) <= cap:
+            return acts
+        return acts[rng.choice(len(acts), cap, replace=False)]
+
+    def _acts(self, env: Any) -> np.ndarray:
+        k = id(env)
+        if getattr(self, "_acts_cache", (None, None))[0] != k:
+            self._acts_cache = (k, self.all_actions(env))
+        return self._acts_cache[1]
+
     def is_terminal_state(self, env: Any, s: Any, ts: Any) -> bool:
         return int(ts.step_type) == 2
 
@@ -93,7 +112,12 @@ def load_adapters() -> Dict[str, Adapter]:
         return ADAPTERS
     import envs
 
+    import os
+
+    only = [x for x in os.environ.get("VERIF_ONLY_ENVS", "").split(",") if x]
     for m in pkgutil.iter_modules(envs.__path__):
+        if only and m.name not in only:
+            continue
         mod = importlib.import_module(f"envs.{m.name}")
         if hasattr(mod, "A"):
             a = mod.A()
@@ -156,10 +180,10 @@ def choose(policy: str, rng: np.random.Generator, mask: Optional[np.ndarray], n:
 def rollouts(ad: Adapter, env: Any, runner: Runner, rng: np.random.Generator, episodes: int,
              policies: Optional[List[str]] = None, max_steps: Optional[int] = None,
              post_terminal: int = 0) -> Iterable[Dict[str, Any]]:
-    """yields transition records {key, t, policy, state, ts_prev, action_idx, action, next, ts}"""
+    """yields records: {reset: True, seed, state, ts, policy} then
+    {reset: False, seed, t, policy, state, ts_prev, action, next, ts, post_terminal}"""
     import jax
 
-    acts = ad.all_actions(env)
     pols = policies or POLICIES
     cap = max_steps or ad.max_steps
     for ep in range(episodes):
@@ -171,12 +195,10 @@ def rollouts(ad: Adapter, env: Any, runner: Runner, rng: np.random.Generator, ep
         t = 0
         after = 0
         while t < cap:
-            mask = ad.flat_mask(env, s, ts.observation) if ad.has_mask else None
-            ai = choose(pol, rng, mask, len(acts), t)
-            a = acts[ai]
+            a = np.asarray(ad.choose_action(env, s, ts, pol, rng, t))
             s2, ts2 = runner.step(s, a)
             yield {"reset": False, "seed": seed, "t": t, "policy": pol, "state": s, "ts_prev": ts,
-                   "action_idx": ai, "action": a, "next": s2, "ts": ts2, "post_terminal": after > 0}
+                   "action": a, "next": s2, "ts": ts2, "post_terminal": after > 0}
             s, ts = s2, ts2
             t += 1
             if int(ts.step_type) == 2:
